@@ -363,9 +363,9 @@ def gen_s4u(rng, opts=(), tame=False, force=None):
                 elif q < 0.7 and vmmig:
                     ops.append("vmmigrate %s %s" % (vm, rng.choice(hosts)))
                     feat.add("vm-migrate")
-                elif q < 0.8:
+                elif q < 0.8 and not nokill:
                     ops.append("vmshutdown %s" % vm)
-                elif q < 0.9:
+                elif q < 0.9 and not nokill:
                     ops.append("vmdestroy %s" % vm)
                 elif vvars:
                     ops.append("vvar %s %s vv0 %s" % (rng.choice(["set", "add", "sub"]), vm, _fmt(rng.choice([1.0, 2.0]))))
